@@ -206,7 +206,11 @@ func (n *Nodis) applyPatch(p patch.Op) error {
 	case *patch.OpZIncrBy:
 		n.ZIncrBy(op.Key, op.Member, op.Score)
 	case *patch.OpZRem:
-		n.ZRem(op.Key, op.Member)
+		members := op.Members
+		if op.Member != "" {
+			members = append([]string{op.Member}, members...)
+		}
+		n.ZRem(op.Key, members...)
 	case *patch.OpZRemRangeByRank:
 		n.ZRemRangeByRank(op.Key, op.Start, op.Stop)
 	case *patch.OpZRemRangeByScore:
